@@ -256,10 +256,17 @@ def gen_inflight(full=True):
                             subs=subs, end=after + 200001)
                 out.append(dict(base, controls=[[req, "ensure", 1]] + reuse, tag=f"inflight/none/{dname}"))
                 for ck, ca in ctrls:
-                    for t in offs:
+                    for t in offs + [req + win]:
                         if ck in ("drop", "dropreset") and ca == 2 and t <= req + win:
                             continue
                         sc = dict(base, controls=[[req, "ensure", 1], [t, ck, ca]] + reuse, tag=f"inflight/{ck}/{dname}")
+                        if t == req + win:
+                            # the event falls on the very tick of the accessory's reaction / the request timeout: a race
+                            # the scheduler decides (the model flags the tie); judged by the property oracles only
+                            if ck in ("pair", "close_then", "shutdown_then"):
+                                continue
+                            sc["oracle_only"] = True
+                            sc["tag"] = f"inflight/{ck}@answer/{dname}"
                         if ck in ("pair", "close_then"):
                             # the second event's effects interleave with the first's inside one tick (scheduler's
                             # choice; the snapshot is taken after both): judged by the property oracles only
@@ -387,9 +394,10 @@ def _connected_unverified(sc, tr):
             for c in e[3]:
                 v = ver.get(c)
                 vd = _vdelay_of(sc, c)
-                if v is None or v[3] != "ok" or vd >= THIRTY_S or e[0] < v[0] + vd:
+                # (an answer due exactly when the 30 s timeout fires may win or lose the race: not judged)
+                if v is None or v[3] != "ok" or vd > THIRTY_S or e[0] < v[0] + vd:
                     bad.append(("connected-while-unverified", f"the pairing reports connected at tick {e[0]} on connection {c} "
-                                f"whose pair-verify {'was not answered with success' if v is None or v[3] != 'ok' or vd >= THIRTY_S else 'answer is only due at tick ' + str(v[0] + vd)}"))
+                                f"whose pair-verify {'was not answered with success' if v is None or v[3] != 'ok' or vd > THIRTY_S else 'answer is only due at tick ' + str(v[0] + vd)}"))
                     return bad
     return bad
 
@@ -540,8 +548,8 @@ def oracle_c11(sc, tr):
         if e[1] != "verify":
             continue
         vd = _vdelay_of(sc, e[2])
-        if e[3] == "ok" and vd < THIRTY_S:
-            continue
+        if e[3] == "ok" and vd <= THIRTY_S:
+            continue                        # (success due exactly at the timeout tick may win the race: not judged)
         deadline = e[0] + min(vd, THIRTY_S)
         if deadline > endt:
             continue                        # the run ended while the request was still in flight
